@@ -1,3 +1,5 @@
+#[cfg(bpaf_verif)]
+use crate::verif::std;
 use std::collections::BTreeSet;
 
 use crate::{
